@@ -409,11 +409,12 @@ func emitScaleCompare(g *tr.G) {
 			emitC(g, p+t[0], p+t[1], tag)
 			g.W.Count("scale-common-prefix>=255", b2i(n >= 255))
 			g.W.Count("scale-common-prefix>=1023", b2i(n >= 1023))
-			if n <= 130 || g.Thorough() && n <= 1100 {
+			full := g.Thorough() && (n <= 300 || (n <= 1100 && rot%3 == 0))
+			if n <= 130 || full {
 				emitC(g, p+t[1], p+t[0], tag)
 				emitC(g, "x"+p+t[0], "x"+p+t[0], tag)
 			}
-			if (n <= 130 && rot%2 == 0) || (n <= 300 && rot%6 == 0) || g.Thorough() && n <= 1100 {
+			if (n <= 130 && rot%2 == 0) || (n <= 300 && rot%6 == 0) || full {
 				emitX(g, p+t[0], p+t[1], p+t[2], "scale-depth")
 			}
 		}
@@ -464,6 +465,7 @@ func emitScaleTrunc(g *tr.G) {
 				if kind == "continuation" && n > 2100 {
 					continue
 				}
+				cuts = []int{0, 1, n/2 - 1, n / 2, n - 2, n - 1, n, n + 1, n + 3, n + 4}
 				if !g.Thorough() {
 					if kind == "continuation" || (ki+si+int(g.Seed))%3 != 0 {
 						continue
@@ -589,6 +591,9 @@ func emitScaleMbits(g *tr.G) {
 			for pi := range pats {
 				// (the all-zero slice -- the whole word loop and the tail -- always; of the others ...)
 				if big && !g.Thorough() && pi > 0 && ((n <= 4200 && (pi+rot)%5 != 0) || (n > 4200 && (pi+rot)%10 != 0)) {
+					continue
+				}
+				if n > 4200 && g.Thorough() && pi > 0 && (pi+rot)%2 != 0 { // thorough: half of the patterns above 4200 bytes
 					continue
 				}
 				a := args(pi)
